@@ -338,7 +338,7 @@ def run_paxos(chk, jobs, tier, rng, parallel):
     res = jobs.result("paxos_tour_cut")
     chk.add_tlc("Paxos as-code, partitioned competing proposers n1|n3: full state graph (dot)", res, count=False)
     # exhaustive tours of the two small as-code graphs, schedule replay on the real nodes
-    for lab, what, cap in (("C12_paxos_live_ascode", "single-proposer", 100), ("C12_paxos_tour_cut", "partitioned-proposers", 160)):
+    for lab, what, cap in (("C12_paxos_live_ascode", "single-proposer", 60), ("C12_paxos_tour_cut", "partitioned-proposers", 160)):
         dot = tlc.WORK / lab / "graph.dot"
         g = tlc.parse_dot(dot)
         n_paths = 0
